@@ -8,6 +8,21 @@
 #include <condition_variable>
 #include <mutex>
 
+#ifdef M17CXX_VERIF
+// Verification hook (add-only; with M17CXX_VERIF undefined this header is token-for-token the original).
+// The user supplies verif_trace; it is called with the mutex held at: 1 lock acquired, 2 wait entry
+// (arg = 2*cv + has_deadline, cv 0 = full_, 1 = empty_), 3 wait exit (arg = 2*cv + timed_out), 4 item pushed
+// (arg = item), 5 item popped (arg = item), 6 state_ written (arg = new state), 7 return (arg = result).
+#include <type_traits>
+extern "C" void verif_trace(int ev, const void* q, long arg);
+namespace mobilinkd { namespace verif_detail {
+template <typename V> long arg_of(const V& v)
+{
+    if constexpr (std::is_convertible_v<V, long>) return static_cast<long>(v); else return 0;
+}
+}}
+#endif
+
 namespace mobilinkd
 {
 
@@ -74,31 +89,58 @@ public:
     bool get_until(reference val, std::chrono::time_point<Clock> when)
     {
         lock_type lock(mutex_);
+#ifdef M17CXX_VERIF
+        verif_trace(1, this, 0);
+#endif
 
         while (queue_.empty())
         {
             if (State::CLOSED == state_)
             {
+#ifdef M17CXX_VERIF
+                verif_trace(7, this, 0);
+#endif
                 return false;
             }
 
+#ifdef M17CXX_VERIF
+            verif_trace(2, this, 3);
+#endif
             if (empty_.wait_until(lock, when) == std::cv_status::timeout)
             {
+#ifdef M17CXX_VERIF
+                verif_trace(3, this, 3);
+#endif
+#ifdef M17CXX_VERIF
+                verif_trace(7, this, 0);
+#endif
                 return false;
             }
+#ifdef M17CXX_VERIF
+            verif_trace(3, this, 2);
+#endif
         }
 
         val = std::move(queue_.front());
         queue_.pop_front();
+#ifdef M17CXX_VERIF
+        verif_trace(5, this, verif_detail::arg_of(val));
+#endif
         size_ -= 1;
 
         if (state_ == State::CLOSING && queue_.empty())
         {
             state_ = State::CLOSED;
+#ifdef M17CXX_VERIF
+            verif_trace(6, this, long(state_));
+#endif
         }
         
         full_.notify_one();
 
+#ifdef M17CXX_VERIF
+        verif_trace(7, this, 1);
+#endif
         return true;
     }
 
@@ -119,35 +161,62 @@ public:
     bool get(reference val, std::chrono::duration<Rep, Period> timeout = std::chrono::duration<Rep, Period>::max())
     {
         lock_type lock(mutex_);
+#ifdef M17CXX_VERIF
+        verif_trace(1, this, 0);
+#endif
 
         while (queue_.empty())
         {
             if (State::CLOSED == state_)
             {
+#ifdef M17CXX_VERIF
+                verif_trace(7, this, 0);
+#endif
                 return false;
             }
 
+#ifdef M17CXX_VERIF
+            verif_trace(2, this, (timeout == std::chrono::duration<Rep, Period>::max()) ? 2 : 3);
+#endif
             if (timeout == std::chrono::duration<Rep, Period>::max())
             {
                 empty_.wait(lock);  // forever: no deadline to overflow.
             }
             else if (empty_.wait_for(lock, timeout) == std::cv_status::timeout)
             {
+#ifdef M17CXX_VERIF
+                verif_trace(3, this, 3);
+#endif
+#ifdef M17CXX_VERIF
+                verif_trace(7, this, 0);
+#endif
                 return false;
             }
+#ifdef M17CXX_VERIF
+            verif_trace(3, this, 2);
+#endif
         }
 
         val = std::move(queue_.front());
         queue_.pop_front();
+#ifdef M17CXX_VERIF
+        verif_trace(5, this, verif_detail::arg_of(val));
+#endif
         size_ -= 1;
 
         if (state_ == State::CLOSING && queue_.empty())
         {
             state_ = State::CLOSED;
+#ifdef M17CXX_VERIF
+            verif_trace(6, this, long(state_));
+#endif
         }
         
         full_.notify_one();
 
+#ifdef M17CXX_VERIF
+        verif_trace(7, this, 1);
+#endif
         return true;
     };
     
@@ -168,11 +237,17 @@ public:
     {
         // Get the queue mutex.
         lock_type lock(mutex_);
+#ifdef M17CXX_VERIF
+        verif_trace(1, this, 0);
+#endif
 
         if (SIZE == size_)
         {
             if (timeout.count() == 0)
             {
+#ifdef M17CXX_VERIF
+                verif_trace(7, this, 0);
+#endif
                 return false; 
             }
 
@@ -184,52 +259,97 @@ public:
             {
                 if (State::OPEN != state_)
                 {
+#ifdef M17CXX_VERIF
+                    verif_trace(7, this, 0);
+#endif
                     return false;
                 }
 
+#ifdef M17CXX_VERIF
+                verif_trace(2, this, no_deadline ? 0 : 1);
+#endif
                 if (no_deadline)
                 {
                     full_.wait(lock);   // forever: no deadline to overflow.
                 }
                 else if (full_.wait_until(lock, expiration) == std::cv_status::timeout)
                 {
+#ifdef M17CXX_VERIF
+                    verif_trace(3, this, 1);
+#endif
+#ifdef M17CXX_VERIF
+                    verif_trace(7, this, 0);
+#endif
                     return false;
                 }
+#ifdef M17CXX_VERIF
+                verif_trace(3, this, 0);
+#endif
             }
         }
         
         if (State::OPEN != state_)
         {
+#ifdef M17CXX_VERIF
+            verif_trace(7, this, 0);
+#endif
             return false;
         }
 
         queue_.emplace_back(std::forward<U>(val));
+#ifdef M17CXX_VERIF
+        verif_trace(4, this, verif_detail::arg_of(queue_.back()));
+#endif
         size_ += 1;
 
         empty_.notify_one();
         
+#ifdef M17CXX_VERIF
+        verif_trace(7, this, 1);
+#endif
         return true;
     };
 
     void close()
     {
         guard_type lock(mutex_);
+#ifdef M17CXX_VERIF
+        verif_trace(1, this, 0);
+#endif
 
         state_ = (queue_.empty() ? State::CLOSED : State::CLOSING);
+#ifdef M17CXX_VERIF
+        verif_trace(6, this, long(state_));
+#endif
         
         full_.notify_all();
         empty_.notify_all();
+#ifdef M17CXX_VERIF
+        verif_trace(7, this, 0);
+#endif
     }
     
     bool is_open() const
     {
         guard_type lock(mutex_);
+#ifdef M17CXX_VERIF
+        verif_trace(1, this, 0);
+#endif
+#ifdef M17CXX_VERIF
+        verif_trace(7, this, long(State::OPEN == state_));
+#endif
         return State::OPEN == state_;
     }
         
     bool is_closed() const
     {
         guard_type lock(mutex_);
+#ifdef M17CXX_VERIF
+        verif_trace(1, this, 0);
+#endif
+#ifdef M17CXX_VERIF
+        verif_trace(7, this, long(State::CLOSED == state_));
+#endif
         return State::CLOSED == state_;
     }
 
@@ -239,6 +359,12 @@ public:
     size_t size() const
     {
         guard_type lock(mutex_);
+#ifdef M17CXX_VERIF
+        verif_trace(1, this, 0);
+#endif
+#ifdef M17CXX_VERIF
+        verif_trace(7, this, long(size_));
+#endif
         return size_;
     }
     
@@ -248,6 +374,12 @@ public:
     bool empty() const
     {
         guard_type lock(mutex_);
+#ifdef M17CXX_VERIF
+        verif_trace(1, this, 0);
+#endif
+#ifdef M17CXX_VERIF
+        verif_trace(7, this, long(size_ == 0));
+#endif
         return size_ == 0;
     }
 
